@@ -964,6 +964,7 @@ pub fn run(ctx: &RunCtx, flavor: Flavor) -> Report {
 
     let keepalive = flavor == Flavor::C15 && cfg.chance(1, 4);
     let crowd_at: Option<usize> = if flavor == Flavor::C15 && depth >= 3 && Rng::new(crate::rng::key(ctx.seed, &[crate::rng::tag("c15-crowd")])).chance(1, 40) { Some(1 + (ctx.seed % (depth as u64 - 1)) as usize) } else { None };
+    let own_put_at: Option<usize> = if flavor != Flavor::C15 && enumerated.is_none() && Rng::new(crate::rng::key(ctx.seed, &[crate::rng::tag("own-put")])).chance(1, 8) { Some((ctx.seed % depth as u64) as usize) } else { None };
     let flood_at: Option<usize> = if flavor == Flavor::C15 && depth >= 3 && cfg.chance(1, 40) { Some(cfg.usize(1, depth - 1)) } else { None };
     let mut keepalives = 0u64;
     for i in 0..depth {
@@ -1040,6 +1041,17 @@ pub fn run(ctx: &RunCtx, flavor: Flavor) -> Report {
             report.probe("requester_crowds", 1);
             report.probe("requester_crowd_reads", n as u64);
             plan.push(format!("op[{i}] crowd of {n} get/get_peers from distinct source IPs"));
+        }
+        // 1 run in 8: the application on the server node writes one of the keys itself (put_mutable through the
+        // API, seq around what the clients use). Its writes go out to the network like anybody's; the node's
+        // own store changes only through requests it receives and accepts.
+        if own_put_at == Some(i) {
+            let seq = r.range(0, 5) as i64;
+            let k = &keys[r.usize(0, 1)];
+            let item = dht::MutableItem::new(k, &values[r.usize(0, 2)], seq, None);
+            let _ = sim.put_mutable(server, item, if r.chance(1, 3) { Some(r.range(0, 5) as i64) } else { None });
+            report.probe("server_application_writes_a_key_itself", 1);
+            plan.push(format!("op[{i}] the server's own application calls put_mutable(seq={seq})"));
         }
         let ci = r.usize(0, clients.len() - 1);
         let ci = if enumerated.is_some() { 0 } else { ci };
